@@ -387,7 +387,10 @@ def export_parse_line(line, **params):
     gf_separator = trees.DEFAULT_GF_SEPARATOR
     if 'gf_separator' in params:
         gf_separator = params['gf_separator']
-    fields = line.split()
+    # fields are separated by blanks and tabs; other space characters,
+    # e.g., a no-break space, are part of a word
+    fields = re.split(u"[%s]+" % string.whitespace,
+                      line.strip(string.whitespace))
     # if it is export 3, insert dummy lemma
     if fields[4].isdigit():
         fields[1:1] = [trees.DEFAULT_LEMMA]
@@ -430,7 +433,7 @@ def export(in_file, in_encoding, **params):
     tree_cnt = 1
     with io.open(in_file, encoding=in_encoding) as stream:
         for line in stream:
-            line = line.strip()
+            line = line.strip(string.whitespace)
             if not in_sentence:
                 if line.startswith(u"#BOS"):
                     last_id = int(line.split()[1])
